@@ -165,7 +165,7 @@ func genScriptLab(t *rapid.T) *world.Plan {
 	return p
 }
 
-// C24: the real lnd adapter over the simulated LND. Hostile makers issue fee and
+// C24: the real lnd adapter over the simulated LND, the real clightning adapter over the simulated lightningd. Hostile makers issue fee and
 // claim invoices with foreign destinations, odd amounts and CLTV values; honest
 // pairs run with both spellings of the channel id.
 func init() {
@@ -174,11 +174,12 @@ func init() {
 		Gen: func(t *rapid.T, tier string) *world.Plan {
 			var p *world.Plan
 			if rapid.IntRange(0, 2).Draw(t, "honest-pair") == 0 {
-				p = genPlan(t, genOpts{flavors: []string{"lnd"}, adapters: 100, sched: true, maxNet: 1, maxLN: 1, maxCrashes: 1, secondOp: true, duration: []int{300, 600}, restartMs: []int{500, 5000}})
+				p = genPlan(t, genOpts{adapters: 100, clnAdapters: 100, sched: true, maxNet: 1, maxLN: 1, maxCrashes: 1, secondOp: true, duration: []int{300, 600}, restartMs: []int{500, 5000}})
 				return p
 			}
 			p = advMakerPlan(t, nil, rapid.Bool().Draw(t, "deviate"))
-			p.Scn.Flavor[0], p.Scn.Adapter[0] = "lnd", "lnd"
+			be := pick(t, "backend", []string{"lnd", "cln"})
+			p.Scn.Flavor[0], p.Scn.Adapter[0] = be, be
 			cfg := p.AdvCfg
 			if rapid.IntRange(0, 2).Draw(t, "foreign-dest") == 0 {
 				cfg.Inv.Dest = "third"
